@@ -284,6 +284,31 @@ def run(rep):
         r = show(blocks["right"], skip_debug=True)
         r2 = re.sub(r"\bright\b", "left", r)
         rep.check(l == r2, "SIBLING-LR", "SIBLING-LR/extraction", blocks["right"]["sp"], "right operand block == left operand block modulo renaming", _first_diff(l, r2))
+    # str(): every scalar kind is rendered, and the signed and unsigned integer kinds are rendered alike (the same number is Int or UInt
+    # depending on the document's representation).  A value-kind match that renders some scalar with to_string must do so for all four.
+    nstr = 0
+    for fname in ("solver::solve_expression", "solver::match_all", "solver::match_of"):
+        f = F.fn(fname)
+        if f is None:
+            continue
+        for n in walk(f.body):
+            if n.get("k") != "Match":
+                continue
+            kinds = set()
+            for a in n["arms"]:
+                b = unblock(a["body"])
+                while b.get("k") == "Block" and b.get("expr") is not None and not b["stmts"]:
+                    b = unblock(b["expr"])
+                if call_is(b, "ToString::to_string") or (b.get("k") == "Adt" and b.get("variant") == "Some" and call_is(peel(b["fields"][0]["e"]), "ToString::to_string")):
+                    for alt in or_pats(a["pat"]):
+                        for pp in q._walk_pat(alt):
+                            v = variant_of(pp)
+                            if v and v[0] == "Value" and v[1] in ("Bool", "Float", "Int", "UInt"):
+                                kinds.add(v[1])
+            if kinds:
+                nstr += 1
+                rep.check(kinds == {"Bool", "Float", "Int", "UInt"}, "T-STR", "T-STR/kinds/%s#%d" % (fname.split("::")[-1], nstr), n["sp"], "str() renders every scalar kind, signed and unsigned integers alike", str(sorted(kinds)))
+    rep.check(nstr >= 3, "T-STR", "T-STR/kinds/sites", "src/solver.rs", "value-kind matches that render scalars for str() found", str(nstr))
     rep.floor("T-CAST", 40)
 
     # ---------------------------------------------------------------- LOSSY
@@ -385,6 +410,8 @@ def run(rep):
     import core
     core.import_rules(rep, "c03", {"L-MATRIX"}, key_prefixes=("L-MATRIX/cell-",))
     # "str() compares the canonical decimal text": the constant side is rendered by the loader's number lowering (shared with C02)
+    # numbers reach the solver through the adapters: the accessor must agree with its guard over the whole 64-bit range (shared with C11)
+    core.import_rules(rep, "c11", {"T-NUMBER"})
     core.import_rules(rep, "c02", {"T-YAML"}, key_prefixes=("T-YAML/single/Number", "T-YAML/list/Number", "T-YAML/"))
     rep.extra["casts_classified"] = ncasts
     if rep.tier == "thorough":
